@@ -83,8 +83,13 @@ def check(ctx):
         for tag, e, p in (("A", exe, pa), ("B", exe, pb), ("C", exe, pc), ("M", model_exe, pm)):
             procs.append((env, tag, _spawn(e, p, os.path.join(work, "%s.%s.out" % (env.name, tag)))))
     problems = []
+    deadline = time.time() + (1500 if tier == "quick" else 3000)
     for env, tag, p in procs:
-        err = p.communicate()[1]
+        try:
+            err = p.communicate(timeout=max(5, deadline - time.time()))[1]
+        except subprocess.TimeoutExpired:
+            p.kill()
+            err = p.communicate()[1] + b" TIMEOUT (killed)"
         if p.returncode != 0:
             problems.append("%s run %s exited with %s: %s" % (env.name, tag, p.returncode, err.decode("utf8", "replace")[-400:]))
     for pr in problems:
